@@ -104,7 +104,14 @@ func runC13(r *Run) error {
 	nextProc := []time.Duration{}
 	for _, op := range cfg.Ops {
 		ms, _ := strconv.Atoi(op.Key)
-		nextProc = append(nextProc, time.Duration(ms)*time.Millisecond)
+		d := time.Duration(ms) * time.Millisecond
+		if d > 0 {
+			// off the millisecond grid: arrivals, intervals and delays are whole milliseconds, so the end of a
+			// run never falls on the same fake instant as a queue timer (the order of two timers that expire
+			// at the same instant is the one thing the fake clock leaves open)
+			d += 137 * time.Microsecond
+		}
+		nextProc = append(nextProc, d)
 	}
 	record := func(kind string) {
 		idx := len(runs)
